@@ -4,7 +4,7 @@
    ConstPropagate, ShortCircuitXORZero and Prune.  (Property C09) *)
 From Coq Require Import List Bool Arith Lia.
 From Mpc Require Import Circuit.Circuit Circuit.Passes Circuit.PassesProof Circuit.PassesBFS
-  Circuit.PassesIO.
+  Circuit.PassesIO Circuit.PassesTV.
 Import ListNotations.
 
 (* ---- consumer slots ------------------------------------------------ *)
@@ -791,7 +791,8 @@ Lemma scx_fire rank G g oin p :
   gorder G' = gorder G /\
   (forall i, nop (gn G' i) = nop (gn G i) /\ nA (gn G' i) = nA (gn G i) /\
              nB (gn G' i) = nB (gn G i) /\ ndead (gn G' i) = ndead (gn G i)) /\
-  (forall w, w < gnw G -> gw G' w = gw G w).
+  (forall w, w < gnw G -> gw G' w = gw G w) /\
+  (TV G -> TV G').
 Proof.
   intros B S Hg Hoin Hp HOp Hn1. intros G1 G2 G'.
   set (f := gnw G) in *. set (Oo := nO (gn G g)) in *.
@@ -836,8 +837,28 @@ Proof.
     unfold lslots in Z. rewrite (s0_nodead _ _ S c Hc) in Z. apply slots_inputs in Hin. lia. }
   assert (Rk : forall w, w <> f -> rank_ext rank f (rank Oo) w = rank w).
   { intros w Hw. unfold rank_ext. destruct (Nat.eqb_spec w f); [contradiction|reflexivity]. }
-  split; [|split; [|split; [|split; [reflexivity|split]]]];
-    [| | |exact Shape|intros w Hw; apply Wold; unfold f; lia].
+  assert (TVI : TV G -> TV G').
+  { intros T.
+    assert (Nv : forall i, nvis (gn G' i) = nvis (gn G i)).
+    { intros i. unfold G', G2, G1. simpl. unfold fupd.
+      destruct (Nat.eqb_spec i g); subst; simpl.
+      - destruct (Nat.eqb_spec g p); subst; simpl; auto.
+      - destruct (Nat.eqb_spec i p); subst; simpl; auto. }
+    constructor.
+    - intros w. destruct (Nat.eq_dec w f) as [->|Hw]; [now rewrite Wf|].
+      rewrite (Wold w Hw). apply (tv_fresh _ T).
+    - intros i. rewrite Nv. apply (tv_unvis _ T).
+    - apply (tv_ins_nodup _ T).
+    - intros w Hw. change (gins G') with (gins G) in Hw.
+      rewrite (Wold w) by (pose proof (s0_rng_in _ _ S w Hw); unfold f; lia).
+      now apply (tv_ins_flag _ T).
+    - apply (tv_outs_nodup _ T).
+    - intros w. change (gouts G') with (gouts G). destruct (Nat.eq_dec w f) as [->|Hw].
+      + rewrite Wf. simpl. split; [discriminate|].
+        intros Hin. destruct (s0_oflag _ _ S f Hin). unfold f in *. lia.
+      + rewrite (Wold w Hw). apply (tv_outs_flag _ T). }
+  split; [|split; [|split; [|split; [reflexivity|split; [exact Shape|split; [|exact TVI]]]]]];
+    [| | |intros w Hw; apply Wold; unfold f; lia].
   - (* BK *)
     constructor.
     + apply (bk_nodup _ B).
@@ -971,14 +992,15 @@ Lemma scx_try_XI rank G g zin oin :
                  clp L G w -> clp L G' w) /\
     gorder G' = gorder G /\ same_io_nodes G G' /\
     (forall w, w < gnw G -> gw G' w = gw G w) /\
-    (G' = G \/ slots (gn G g) oin = 1).
+    (G' = G \/ slots (gn G g) oin = 1) /\ (TV G -> TV G').
 Proof.
   intros B S Hg Hoin LK Hpo. simpl. unfold scx_try.
   assert (Triv : exists rank', BK G /\ ST0 rank' G /\
     (forall L w, (forall h, In h L -> In h (gorder G)) -> (w = oin -> ~ In g L) ->
                  clp L G w -> clp L G w) /\
     gorder G = gorder G /\ same_io_nodes G G /\
-    (forall w, w < gnw G -> gw G w = gw G w) /\ (G = G \/ slots (gn G g) oin = 1)).
+    (forall w, w < gnw G -> gw G w = gw G w) /\ (G = G \/ slots (gn G g) oin = 1) /\
+    (TV G -> TV G)).
   { exists rank. split; [exact B|]. split; [exact S|]. split; [auto|]. split; [auto|].
     split; [intros i; auto|]. split; auto. }
   destruct (isZ (wv (gw G zin))) eqn:EZ; auto.
@@ -986,10 +1008,10 @@ Proof.
   destruct (Nat.eqb_spec (wnum (gw G (nO (gn G p)))) 1) as [E1|E1]; auto.
   clear Triv. pose proof (LK p EZ EP E1) as Hlink. rewrite Hlink in E1.
   destruct (scx_fire rank G g oin p B S Hg Hoin (Hpo p eq_refl) Hlink E1)
-    as (B' & S' & T' & O' & Sh' & W').
+    as (B' & S' & T' & O' & Sh' & W' & TV').
   exists (rank_ext rank (gnw G) (rank (nO (gn G g)))).
   split; [exact B'|]. split; [exact S'|]. split; [exact T'|]. split; [exact O'|].
-  split; [exact Sh'|]. split; [exact W'|]. right.
+  split; [exact Sh'|]. split; [exact W'|]. split; [|exact TV']. right.
   (* g holds exactly one slot on oin *)
   assert (H1 : 0 < slots (gn G g) oin) by (now apply slots_inputs).
   pose proof (bk_cnt _ B oin) as U. rewrite E1 in U.
@@ -1014,7 +1036,8 @@ Lemma scx_fold_XI l : forall G rank,
   BK G -> ST0 rank G -> (forall w, clp l G w) ->
   links_exact G l /\
   exists rank', BK (fold_left scx_step l G) /\ ST0 rank' (fold_left scx_step l G) /\
-                gorder (fold_left scx_step l G) = gorder G.
+                gorder (fold_left scx_step l G) = gorder G /\
+                (TV G -> TV (fold_left scx_step l G)).
 Proof.
   induction l as [|g l IH]; intros G rank ND Hl B S C; simpl.
   - split; auto. exists rank. auto.
@@ -1029,7 +1052,7 @@ Proof.
       assert (HA : In A (inputs_of (gn G g))) by (unfold inputs_of; rewrite Hop; now left).
       assert (HB : In Bw (inputs_of (gn G g))) by (unfold inputs_of; rewrite Hop; right; now left).
       assert (K1 : link_ok G A Bw) by (apply (link_from_clp (g :: l) G g); auto; now left).
-      destruct (scx_try_XI rank G g A Bw B S Hg HB K1) as (r1 & B1 & S1 & T1 & O1 & Sh1 & W1 & F1).
+      destruct (scx_try_XI rank G g A Bw B S Hg HB K1) as (r1 & B1 & S1 & T1 & O1 & Sh1 & W1 & F1 & V1).
       { intros p Hp. apply (C Bw p Hp). }
       set (G1 := scx_try G g A Bw) in *.
       destruct (Sh1 g) as (s1 & s2 & s3 & s4). fold A in s2. fold Bw in s3.
@@ -1042,36 +1065,33 @@ Proof.
           unfold slots, slotA, slotB in E. rewrite Hop in E. fold A in E. fold Bw in E.
           rewrite EAB, Nat.eqb_refl in E. simpl in E. lia. }
       assert (K2 : link_ok G1 Bw A) by (apply (link_from_clp (g :: l) G1 g); auto; now left).
-      destruct (scx_try_XI r1 G1 g Bw A B1 S1 Hg1 HA1 K2) as (r2 & B2 & S2 & T2 & O2 & Sh2 & W2 & F2).
+      destruct (scx_try_XI r1 G1 g Bw A B1 S1 Hg1 HA1 K2) as (r2 & B2 & S2 & T2 & O2 & Sh2 & W2 & F2 & V2).
       { intros p Hp. apply (CA1 p Hp). }
       set (G2 := scx_try G1 g Bw A) in *.
       assert (E : scx_step G g = G2).
       { unfold scx_step. rewrite EX. fold A. fold Bw. fold G1. now rewrite s2, s3. }
       rewrite E.
-      destruct (IH G2 r2 ND') as (LE & r3 & B3 & S3 & O3); auto.
+      destruct (IH G2 r2 ND') as (LE & r3 & B3 & S3 & O3 & V3); auto.
       * intros h Hh. rewrite O2, O1. now apply Hl'.
       * intros w. apply T2; [intros h Hh; rewrite O1; now apply Hl'|intros _; exact Hgl|].
         apply T1; [exact Hl'|intros _; exact Hgl|]. apply Cl'. exact C.
       * split; [split; [intros _; split; auto|exact LE]|].
-        exists r3. split; auto. split; auto. now rewrite O3, O2, O1.
+        exists r3. split; auto. split; auto. split; [now rewrite O3, O2, O1|auto].
     + assert (E : scx_step G g = G) by (unfold scx_step; now rewrite EX). rewrite E.
-      destruct (IH G rank ND' Hl' B S (Cl' G C)) as (LE & r3 & B3 & S3 & O3).
+      destruct (IH G rank ND' Hl' B S (Cl' G C)) as (LE & r3 & B3 & S3 & O3 & V3).
       split; [split; [intros H; discriminate|exact LE]|]. exists r3. auto.
 Qed.
 
 (* ---- the freshly built graph satisfies the invariant ----------------- *)
 
 (* the rest of the builder's bookkeeping: exact-enough lists and counters,
-   producer links, ranges and an acyclicity witness in which the two constant
-   wires sit at the same rank *)
+   producer links and ranges (the acyclicity witness is derived from the
+   construction order, [fresh_rank]) *)
 Record wfx (G : graph) : Prop := {
   x_nodup : NoDup (gorder G);
   x_lists : forall c w, In c (gorder G) ->
             slots (gn G c) w <= count_occ Nat.eq_dec (wouts (gw G w)) c;
   x_cnt : forall w, uses G w <= wnum (gw G w);
-  x_rank : exists rank,
-      (forall c, In c (gorder G) -> forall w, In w (inputs_of (gn G c)) -> rank w < rank (nO (gn G c))) /\
-      (forall k k', isconst G k -> isconst G k' -> rank k = rank k');
   x_winp1 : forall h, In h (gorder G) -> winp (gw G (nO (gn G h))) = Some h;
   x_winp2 : forall w p, winp (gw G w) = Some p -> In p (gorder G) /\ nO (gn G p) = w;
   x_rng : forall c, In c (gorder G) ->
@@ -1080,9 +1100,133 @@ Record wfx (G : graph) : Prop := {
   x_rng_out : forall o, In o (gouts G) -> o < gnw G;
   x_const : forall k, isconst G k -> wout (gw G k) = false /\ k < gnw G }.
 
+(* ---- an acyclicity witness from the construction order --------------- *)
+
+(* index of the first gate of l that writes w *)
+Fixpoint first_prod (G : graph) (l : list nat) (w : nat) : option nat :=
+  match l with
+  | [] => None
+  | g :: t => if Nat.eqb (nO (gn G g)) w then Some 0 else option_map S (first_prod G t w)
+  end.
+
+Definition base_rank (G : graph) (w : nat) : nat :=
+  match first_prod G (gorder G) w with Some i => S i | None => 0 end.
+
+Lemma first_prod_none G l w :
+  (forall g, In g l -> nO (gn G g) <> w) -> first_prod G l w = None.
+Proof.
+  induction l as [|a l IH]; simpl; intros H; auto.
+  destruct (Nat.eqb_spec (nO (gn G a)) w) as [E|E]; [exfalso; apply (H a); auto|].
+  rewrite IH; auto.
+Qed.
+
+Lemma first_prod_here G l1 c l2 :
+  (forall p, In p l1 -> nO (gn G p) <> nO (gn G c)) ->
+  first_prod G (l1 ++ c :: l2) (nO (gn G c)) = Some (length l1).
+Proof.
+  induction l1 as [|a l1 IH]; simpl; intros H.
+  - now rewrite Nat.eqb_refl.
+  - destruct (Nat.eqb_spec (nO (gn G a)) (nO (gn G c))) as [E|E]; [exfalso; apply (H a); auto|].
+    rewrite IH; auto.
+Qed.
+
+Lemma first_prod_before G l1 l2 p w :
+  In p l1 -> nO (gn G p) = w ->
+  exists i, first_prod G (l1 ++ l2) w = Some i /\ i < length l1.
+Proof.
+  induction l1 as [|a l1 IH]; simpl; intros Hp E; [destruct Hp|].
+  destruct (Nat.eqb_spec (nO (gn G a)) w) as [Ea|Ea].
+  - exists 0. split; auto. lia.
+  - destruct Hp as [->|Hp]; [contradiction|].
+    destruct (IH Hp E) as (i & Hi & Hlt). exists (S i). rewrite Hi. simpl. split; auto. lia.
+Qed.
+
+(* the position-based rank decreases along every gate of a graph built in
+   dependency order *)
+Lemma base_rank_edge G : wfg G ->
+  forall c, In c (gorder G) -> forall w, In w (inputs_of (gn G c)) ->
+  base_rank G w < base_rank G (nO (gn G c)).
+Proof.
+  intros WF c Hc w Hw. destruct (in_split _ _ Hc) as (l1 & l2 & E).
+  destruct (wf_topo _ WF l1 c l2 E) as (Tin & Tnot & Tdist).
+  unfold base_rank. rewrite E. rewrite (first_prod_here G l1 c l2 Tdist).
+  destruct (Tin w Hw) as [Hi|(p & Hp & Ep)].
+  - rewrite first_prod_none; [lia|]. intros g Hg Eg. rewrite <- E in Hg.
+    destruct (in_split _ _ Hg) as (a & b & E').
+    destruct (wf_topo _ WF a g b E') as (_ & N & _). apply N. now rewrite Eg.
+  - destruct (first_prod_before G l1 (c :: l2) p w Hp Ep) as (i & Hi & Hlt). rewrite Hi. lia.
+Qed.
+
+(* both constant wires are put at the lower of their two positions *)
+Definition fresh_rank (G : graph) (z o : nat) : nat -> nat :=
+  fun w => if Nat.eqb w z || Nat.eqb w o
+           then Nat.min (base_rank G z) (base_rank G o) else base_rank G w.
+
+Lemma fresh_rank_ok G : wfg G ->
+  exists rank,
+    (forall c, In c (gorder G) -> forall w, In w (inputs_of (gn G c)) -> rank w < rank (nO (gn G c))) /\
+    (forall k k', isconst G k -> isconst G k' -> rank k = rank k').
+Proof.
+  intros WF.
+  destruct (wf_consts _ WF) as (z & o & iw & gz & go & gi & Hz & Ho & Vz & Vo & Hall &
+                                Li & Oi & Ai & Wi & Lz & Oz & Az & Bz & Wz & Lo & Oo & Ao & Bo & Wo).
+  exists (fresh_rank G z o).
+  pose proof (base_rank_edge G WF) as BE.
+  assert (Le : forall w, fresh_rank G z o w <= base_rank G w).
+  { intros w. unfold fresh_rank.
+    destruct (Nat.eqb_spec w z) as [->|Nz]; simpl; [lia|].
+    destruct (Nat.eqb_spec w o) as [->|No]; simpl; lia. }
+  assert (InZ : forall w, In w (inputs_of (gn G gz)) -> base_rank G w < base_rank G z).
+  { intros w Hw. rewrite <- Wz. apply BE; auto. apply Lz. }
+  assert (InO : forall w, In w (inputs_of (gn G go)) -> base_rank G w < base_rank G o).
+  { intros w Hw. rewrite <- Wo. apply BE; auto. apply Lo. }
+  assert (Same : inputs_of (gn G gz) = inputs_of (gn G go)).
+  { unfold inputs_of. rewrite Oz, Oo, Az, Ao, Bz, Bo. reflexivity. }
+  split.
+  - intros c Hc w Hw. pose proof (BE c Hc w Hw) as E. pose proof (Le w) as L.
+    unfold fresh_rank at 2.
+    destruct (Nat.eqb_spec (nO (gn G c)) z) as [Ez|Nz]; simpl.
+    + (* c writes the zero wire: c = gz *)
+      assert (c = gz).
+      { destruct (Nat.eq_dec c gz) as [|Hne]; auto. exfalso.
+        assert (CW : forall g1 g2, In g1 (gorder G) -> In g2 (gorder G) ->
+                       nO (gn G g1) = nO (gn G g2) -> g1 = g2).
+        { intros g1 g2 H1 H2 E12. destruct (Nat.eq_dec g1 g2) as [|Hn]; auto. exfalso.
+          destruct (in_split _ _ H1) as (l1 & l2 & E1).
+          rewrite E1 in H2. apply in_app_or in H2. destruct H2 as [H2|[H2|H2]].
+          - destruct (wf_topo _ WF l1 g1 l2 E1) as (_ & _ & D). apply (D g2 H2). now symmetry.
+          - congruence.
+          - destruct (in_split _ _ H2) as (a & b & E2).
+            assert (Hs : gorder G = (l1 ++ g1 :: a) ++ g2 :: b).
+            { rewrite E1, E2, <- app_assoc. reflexivity. }
+            destruct (wf_topo _ WF _ _ _ Hs) as (_ & _ & D). apply (D g1); auto.
+            apply in_or_app. right. now left. }
+        apply Hne. apply CW; auto; [apply Lz|congruence]. }
+      subst c. pose proof (InZ w Hw). rewrite Same in Hw. pose proof (InO w Hw). lia.
+    + destruct (Nat.eqb_spec (nO (gn G c)) o) as [Eo|No]; simpl; [|lia].
+      assert (c = go).
+      { destruct (Nat.eq_dec c go) as [|Hne]; auto. exfalso.
+        assert (CW : forall g1 g2, In g1 (gorder G) -> In g2 (gorder G) ->
+                       nO (gn G g1) = nO (gn G g2) -> g1 = g2).
+        { intros g1 g2 H1 H2 E12. destruct (Nat.eq_dec g1 g2) as [|Hn]; auto. exfalso.
+          destruct (in_split _ _ H1) as (l1 & l2 & E1).
+          rewrite E1 in H2. apply in_app_or in H2. destruct H2 as [H2|[H2|H2]].
+          - destruct (wf_topo _ WF l1 g1 l2 E1) as (_ & _ & D). apply (D g2 H2). now symmetry.
+          - congruence.
+          - destruct (in_split _ _ H2) as (a & b & E2).
+            assert (Hs : gorder G = (l1 ++ g1 :: a) ++ g2 :: b).
+            { rewrite E1, E2, <- app_assoc. reflexivity. }
+            destruct (wf_topo _ WF _ _ _ Hs) as (_ & _ & D). apply (D g1); auto.
+            apply in_or_app. right. now left. }
+        apply Hne. apply CW; auto; [apply Lo|congruence]. }
+      subst c. pose proof (InO w Hw). rewrite <- Same in Hw. pose proof (InZ w Hw). lia.
+  - intros k k' [Hk|Hk] [Hk'|Hk']; rewrite ?Hz, ?Ho in *; inversion Hk; inversion Hk'; subst;
+      unfold fresh_rank; rewrite ?Nat.eqb_refl, ?orb_true_r; simpl; reflexivity.
+Qed.
+
 Lemma fresh_SI G : wfg G -> wfb G -> wfx G -> exists rank, SI rank G.
 Proof.
-  intros WF FB X. destruct (x_rank _ X) as (rank & R1 & R2). exists rank.
+  intros WF FB X. destruct (fresh_rank_ok G WF) as (rank & R1 & R2). exists rank.
   pose proof (fresh_cwf G WF FB) as CW.
   assert (LV : forall c, In c (gorder G) -> live G c).
   { intros c Hc. split; auto. now apply (wf_nodead _ WF). }
